@@ -127,37 +127,41 @@ def toy_prime_curves(nmin, nmax, limit=None, want_n_lt_p=None, pmax=61):
     return out
 
 
-def entropy_stream(data):
-    """Recording entropy source over a finite byte string."""
-    class Stream(object):
-        def __init__(self, data):
-            self.data = bytes(data)
-            self.pos = 0
-            self.log = []
+class Stream(object):
+    """Recording entropy source over a finite byte string (event log in .log)."""
 
-        def __call__(self, nbytes):
-            if self.pos + nbytes > len(self.data):
-                raise StreamExhausted()
-            out = self.data[self.pos: self.pos + nbytes]
-            self.log.append((nbytes, out))
-            self.pos += nbytes
-            return out
-    _VARIANT["i"] += 1
-    v = _VARIANT["i"] % 3
-    if v == 1:
-        class LenStream(Stream):            # len() = bytes handed out so far: falsy while fresh, still a legal callable
-            def __len__(self):
-                return self.pos
-        return LenStream(data)
-    if v == 2:
-        class FalsyStream(Stream):
-            def __bool__(self):
-                return False
-        return FalsyStream(data)
-    return Stream(data)
+    def __init__(self, data):
+        self.data = bytes(data)
+        self.pos = 0
+        self.log = []
+
+    def __call__(self, nbytes):
+        if self.pos + nbytes > len(self.data):
+            raise StreamExhausted()
+        out = self.data[self.pos: self.pos + nbytes]
+        self.log.append((nbytes, out))
+        self.pos += nbytes
+        return out
+
+
+class LenStream(Stream):            # len() = bytes handed out so far: falsy while fresh, still a legal callable
+    def __len__(self):
+        return self.pos
+
+
+class FalsyStream(Stream):
+    def __bool__(self):
+        return False
 
 
 _VARIANT = {"i": 0}
+
+
+def entropy_stream(data):
+    """A recording stream; every third one is an object that is falsy (a legal callable all the same)."""
+    _VARIANT["i"] += 1
+    v = _VARIANT["i"] % 3
+    return (Stream, LenStream, FalsyStream)[v](data)
 
 
 class StreamExhausted(Exception):
